@@ -9,7 +9,7 @@ MUTANTS = [
     {'name': 'new_part_from_path marks the original', 'file': 'partitura/score.py', 'old': '    scorevariant = ScoreVariant(part)\n    for segment_id in path.path:', 'new': '    scorevariant = ScoreVariant(part)\n    part.part_name = part.part_name or "unfolded"\n    for segment_id in path.path:', 'expect': 'F1'},
     {'name': 'revert: single best variant', 'revert': 'single best variant', 'expect': 'F8b'}]
 
-NEUTRALS = [{'name': 'exclusion tuple reordered', 'file': 'partitura/score.py', 'old': '                            Repeat,\n                            Ending,\n                            ToCoda,', 'new': '                            Ending,\n                            Repeat,\n                            ToCoda,'}]
+NEUTRALS = [{'name': 'object map hoisted but cleared per segment', 'file': 'partitura/score.py', 'old': '            o_map = {}\n', 'new': '            o_map = dict()\n            o_map.clear()\n'}, {'name': 'exclusion tuple reordered', 'file': 'partitura/score.py', 'old': '                            Repeat,\n                            Ending,\n                            ToCoda,', 'new': '                            Ending,\n                            Repeat,\n                            ToCoda,'}]
 
 # changes made by sub-agents that were given only the property text (see /verif/seeded/<id>/): each must stay reported
 SEEDED = [
